@@ -491,6 +491,7 @@ func (b *GRPCBroker) knock(id uint32) error {
 	}
 
 	// Wait for the ack.
+	verifhook.Point("grpc.knock.sent", id)
 	p := b.getClientStream(id)
 	select {
 	case msg := <-p.ch:
